@@ -15,7 +15,7 @@ def leaves(pp, rng):
         lambda: pp.Regex(r"\d+", as_match=True), lambda: pp.Regex(r"(a)(b)", as_group_list=True), lambda: pp.Regex(r"\s*"),
         lambda: pp.QuotedString('"'), lambda: pp.QuotedString("'", esc_char="\\", multiline=True),
         lambda: pp.QuotedString("<<", end_quote_char=">>", unquote_results=False), lambda: pp.QuotedString('"', esc_quote='""'),
-        lambda: pp.CloseMatch("abba", max_mismatches=1), lambda: pp.GoToColumn(3), lambda: pp.LineStart(),
+        lambda: pp.CloseMatch("abba", max_mismatches=1), lambda: pp.LineStart(),
         lambda: pp.LineEnd(), lambda: pp.StringStart(), lambda: pp.StringEnd(), lambda: pp.WordStart(), lambda: pp.WordEnd("ab"),
         lambda: pp.Tag("t"), lambda: pp.Tag("t", 3), lambda: c.integer, lambda: c.signed_integer, lambda: c.real,
         lambda: c.sci_real, lambda: c.number, lambda: c.fnumber, lambda: c.ieee_float, lambda: c.hex_integer,
@@ -38,8 +38,8 @@ def wrappers(pp, rng):
         lambda a: pp.Opt(a), lambda a: pp.Opt(a, "d"), lambda a: pp.ZeroOrMore(a), lambda a: pp.OneOrMore(a),
         lambda a: a[1, 2], lambda a: a * 2, lambda a: a[...], lambda a: ~a, lambda a: pp.FollowedBy(a), lambda a: pp.NotAny(a),
         lambda a: pp.Group(a), lambda a: pp.Group(a, aslist=True), lambda a: pp.Suppress(a), lambda a: pp.Combine(a),
-        lambda a: pp.Combine(a, adjacent=False, join_string="-"), lambda a: pp.Dict(pp.OneOrMore(pp.Group(a + a))),
-        lambda a: pp.Dict(pp.Group(a), asdict=True), lambda a: pp.Located(a), lambda a: pp.SkipTo(a),
+        lambda a: pp.Combine(a, adjacent=False, join_string="-"), lambda a: pp.Dict(pp.OneOrMore(pp.Group(pp.Word("ab") + a))),
+        lambda a: pp.Dict(pp.Group(pp.Word("ab") + a), asdict=True), lambda a: pp.Located(a), lambda a: pp.SkipTo(a),
         lambda a: pp.SkipTo(a, include=True), lambda a: pp.DelimitedList(a), lambda a: pp.DelimitedList(a, ";", combine=True),
         lambda a: pp.DelimitedList(a, min=2, max=3, allow_trailing_delim=True), lambda a: pp.AtLineStart(a),
         lambda a: pp.AtStringStart(a), lambda a: pp.PrecededBy(a), lambda a: pp.PrecededBy(a, retreat=2),
@@ -54,7 +54,7 @@ def wrappers(pp, rng):
         lambda a: pp.infix_notation(a, [(("?", ":"), 3, pp.OpAssoc.RIGHT), ("^", 2, pp.OpAssoc.RIGHT)], lpar="[", rpar="]"),
         lambda a: a("name"), lambda a: a("names*"), lambda a: a.copy().leave_whitespace(), lambda a: a.copy().set_whitespace_chars(" "),
         lambda a: a.copy().ignore(pp.python_style_comment), lambda a: a.copy().ignore(pp.c_style_comment),
-        lambda a: a.copy().set_parse_action(lambda t: None), lambda a: a.copy().add_parse_action(lambda s, l, t: t[0] if t else None),
+        lambda a: a.copy().set_parse_action(lambda t: None), lambda a: a.copy().add_parse_action(lambda s, l, t: t[0] if len(t) else None),
         lambda a: a.copy().add_condition(lambda t: len(t) < 2), lambda a: a.copy().add_parse_action(pp.token_map(str)),
         lambda a: a.copy().add_parse_action(pp.replace_with("R")),
         lambda a: a.copy().add_parse_action(pp.match_only_at_col(2)),
@@ -67,7 +67,7 @@ def wrappers(pp, rng):
         lambda a, b: pp.Each([a, pp.Opt(b)]), lambda a, b: pp.Each([pp.OneOrMore(a), pp.ZeroOrMore(b)]),
         lambda a, b: pp.OneOrMore(a, stop_on=b), lambda a, b: a[..., b], lambda a, b: pp.SkipTo(a, fail_on=b),
         lambda a, b: pp.SkipTo(a, ignore=b), lambda a, b: pp.DelimitedList(a, delim=b), lambda a, b: pp.nested_expr(a, b),
-        lambda a, b: pp.dict_of(a, b), lambda a, b: a + (pp.Suppress(...) + b), lambda a, b: pp.Or([a, b, a + b]),
+        lambda a, b: pp.dict_of(pp.Word("ab"), b), lambda a, b: a + (pp.Suppress(...) + b), lambda a, b: pp.Or([a, b, a + b]),
         lambda a, b: pp.MatchFirst([a + b, a, b]), lambda a, b: pp.And([a, pp.Opt(b), a]),
     ]
     return W1, W2
